@@ -23,7 +23,7 @@ def anchors_of(n, edges):
 def ref_topology(draw, n, name="REF", nres=1, kinds=REF_KINDS):
     """Reference topology with >=1 anchor (atom with two bonded neighbours)."""
     for _ in range(5):
-        top = draw(gen.mol_topology(name, n, kinds=kinds, nres=nres, hydrogens="some"))
+        top = draw(gen.mol_topology(name, n, kinds=kinds, nres=nres, hydrogens="some", resid_mode="arbitrary"))
         if n < 3 or anchors_of(n, top["edges"]):
             return top
     top = draw(gen.mol_topology(name, n, kinds=("tree",), nres=nres))
@@ -129,7 +129,7 @@ def ref_tgt_case(draw, nref=(3, 25), ntgt=(1, 30), geoms=GEOMS, nres_max=1,
     nres = draw(st.integers(1, max(1, min(nres_max, n, m))))
     ref = draw(ref_topology(n, "REF", nres=nres))
     tgt = draw(gen.mol_topology("TGT", m, kinds=("tree", "cyclic", "forest", "chain"),
-                                nres=nres))
+                                nres=nres, resid_mode="arbitrary"))
     cls = draw(st.sampled_from(geoms)) if n >= 3 else "generic"
     rng = np.random.default_rng(draw(gen.SEEDS))
     rpos = ref_geometry(n, ref["edges"], cls, rng)
